@@ -89,6 +89,15 @@ pub open spec fn sum_lens(s: Seq<usize>, n: int) -> int decreases n { if n <= 0 
             len > 0 ==> final(self).logmem.writes@ == old(self).logmem.writes@ + expected_writes(*old(self), first_page(offset),
                 if last_page(offset, len) + 1 < old(self).number_of_pages { last_page(offset, len) + 1 } else if first_page(offset) < old(self).number_of_pages { old(self).number_of_pages as int } else { first_page(offset) }),""")
     u.raw("}")
+    # frame condition for "concurrent writers never lose each other's bits": the log is modified only by atomic fetch_or
+    md = u.rw.strip_comments(bmp.fn_body("mark_dirty", within=span))
+    u.scan(["C15"], "mark_dirty_writes_only_by_fetch_or",
+           ".fetch_or(" in md and not re.search(r'\.(store|swap|fetch_and|fetch_xor|fetch_nand|compare_exchange\w*|write\w*)\(', md) and "ptr::" not in md,
+           "AtomicBitmapMmap::mark_dirty modifies the shared log only through AtomicU8::fetch_or (A-ATOMIC makes that race-free)")
+    whole = u.rw.strip_comments(bmp.src[:bmp.src.index("#[cfg(test)]")] if "#[cfg(test)]" in bmp.src else bmp.src)
+    u.scan(["C15"], "bitmap_rs_no_other_log_write",
+           len(re.findall(r'\.(store|swap|fetch_and|fetch_xor|compare_exchange\w*)\(', whole)) == 0 and whole.count(".fetch_or(") == 1,
+           "bitmap.rs contains exactly one write to the log (the fetch_or in mark_dirty) and no store/swap/CAS on it")
     u.raw("pub open spec fn page_bit_spec(page: usize) -> usize { (page % 8) as usize }")
     # ---- C19: ioctl_result / io_result
     for fn, ety in (("ioctl_result", "IoctlError"), ("io_result", "IOError")):
